@@ -1019,6 +1019,9 @@ def shape_key(t, _memo=None):
     return rec(t)
 
 
+PARAM_UNUSED_REVIEWED = {("segment.rand_index", "beta"): "documented but unused in the published code (the Rand index has no F-measure); reviewed"}
+
+
 def purity_rules(prop):
     """Every property quantifies over *all* calls of its entry points: hidden state (a module-level cache, a memoised
     template, a mutable default) or an in-place write to an argument, anywhere in what those entry points can reach,
@@ -1083,7 +1086,41 @@ def purity_rules(prop):
         if k == 0:
             yield ob(prop + ".NOCLAMP", "mir_eval/%s" % files[0], "%s:clamps" % prop, True, "no clamp in the %d functions reachable from the property's entry points" % len(reach))
 
-    extra = ([] if prop == "C16" else [(prop + ".NARROW", 0, narrow_rule)]) + [(prop + ".NOSLACK", 0, slack_rule), (prop + ".NOCLAMP", 0, clamp_rule)]
+    def paramused_rule(ctx):
+        # a documented parameter that is accepted but read nowhere is silently ignored (`beta` no longer forwarded to
+        # util.f_measure, a `fill_value` not passed on): every parameter of every public function the property's
+        # entry points reach occurs in some returned value, call argument, stored value or branch condition
+        reach = reach_from(ctx, files)
+        k = 0
+        for q in sorted(reach):
+            if not ctx.program.has_func(q):
+                continue
+            f = ctx.program.func(q)
+            if not getattr(f, "public", True) or f.parent is not None or f.module.name in ("display", "sonify"):
+                continue
+            s_ = ctx.S.get(q)
+            used = set()
+            for r in s_.returns:
+                used |= tm.params_of(r.term)
+            for x in s_.sites:
+                for v in x.d.values():
+                    if hasattr(v, "op") and hasattr(v, "id"):
+                        used |= tm.params_of(v)
+                    elif isinstance(v, (tuple, list)):
+                        for z in v:
+                            if hasattr(z, "op") and hasattr(z, "id"):
+                                used |= tm.params_of(z)
+                            elif isinstance(z, tuple) and len(z) == 2 and hasattr(z[1], "op"):
+                                used |= tm.params_of(z[1])
+                for c in getattr(x, "pc", ()) or ():
+                    if len(c) > 1 and hasattr(c[1], "op"):
+                        used |= tm.params_of(c[1])
+            dead = [p_ for p_ in f.params if p_ not in used and (q, p_) not in PARAM_UNUSED_REVIEWED]
+            k += 1
+            yield ob(prop + ".PARAMUSED", f, "%s:parameters" % q, not dead, "every parameter of %s is read" % q if not dead else "parameter(s) %s of %s are accepted but read nowhere: the documented argument has no effect" % (", ".join(dead), q))
+        need(k >= 1, prop + ".PARAMUSED", "no public function in reach")
+
+    extra = ([] if prop == "C16" else [(prop + ".NARROW", 0, narrow_rule)]) + [(prop + ".NOSLACK", 0, slack_rule), (prop + ".NOCLAMP", 0, clamp_rule), (prop + ".PARAMUSED", 0, paramused_rule)]
     return [
         (prop + ".NOSTATE", 5, shared_reach("c15", "rule_globalstate", prop + ".NOSTATE", files)),
         (prop + ".ARGSAFE", 5, shared_reach("c15", "rule_nomut", prop + ".ARGSAFE", files)),
